@@ -2,7 +2,7 @@ SPECIFICATION Spec
 CONSTANTS
   Peers = {1, 2, 3}
   MaxR = 4
-  PT <- PTQuick
+  PT <- PTFollow
   Modes = {"follow"}
   ChainedSet = {TRUE}
   Starts = {0, 2}
@@ -12,6 +12,7 @@ CONSTANTS
   FollowRetries = TRUE
   FollowAppend = TRUE
   ResyncChecksRound = TRUE
+  PinsOperatorHash = TRUE
   MaxAgg = 0
   QCap = 1
   Linger = FALSE
